@@ -1091,6 +1091,11 @@ func (rf *Ref) evalBin(v Bin) (V, *ZErr) {
 			return nil, fault(EExprType, "format")
 		}
 	}
+	if fa, isF := l.(FoundIdx); isF && v.Op == "-" {
+		if fb, isF2 := r.(FoundIdx); isF2 {
+			return float64(fa.Pos - fb.Pos), nil
+		}
+	}
 	a, ok := l.(float64)
 	if !ok {
 		return nil, fault(EExprType, "number expected")
